@@ -258,3 +258,7 @@ TEXT["C18"]["level"] += (" ConfigurationRepository.__init__ is proved (for confi
 TEXT["C18"]["note"] += " The loop of ConfigurationRepository.__init__ that loads the clusters named by the configuration, is not under contract; inside Environment.__init__ the constructors of ConfigurationRepository / _DefaultFunctionCluster and _load_config are summarised by uninterpreted functions."
 TEXT["C18"]["level"] += (" Environment.__init__ is proved to take name and base directory from the explicit arguments, else from the configuration ('default' when it names none), to replace the "
                          "repository list by an explicit one and otherwise to build one repository per configured entry, in the configured order, each loaded relative to the configured base directory.")
+TEXT["C12"]["level"] += (" A reference returned by from_qualified_name always has a function object behind it (the function found, or the external stub whose own reference points back at it); "
+                         "MementoCodec.decode_fn_reference is proved to hand that on and MementoCodec.decode_arg never to raise FunctionNotFoundError for a stored function-valued argument (both decoders run in this check as well as in C11's).")
+TEXT["C14"]["level"] += " DependencyGraph.parse_key, by which the graph is linked, is proved to be the inverse of the rule-key construction 'kind;namespace;name' (kind and namespace without ';')."
+TEXT["C14"]["note"] += " The worklist DependencyGraph._rules_until_first_memento_fn that links the graph (df() / graph()) is not under contract."
